@@ -651,9 +651,123 @@ func runRetarget(names []string) string {
 	return ""
 }
 
+// ---------------------------------------------------------------------------------------------
+// embedded structs: promoted methods and a method that shadows a promoted one
+
+// EmbedCase is the replay artefact.
+type EmbedCase struct {
+	Embedded bool   `json:"embedded"`
+	Which    string `json:"which"` // promoted-apply | promoted-return | promoted-value-return | shadowing-apply | shadowing-return
+}
+
+// runEmbedded: the struct handed to Struct() embeds another one. Mocking a method the outer type only
+// has by promotion replaces what a call through the outer type's method set reaches (an interface holding
+// the outer type) and hands the callback the outer receiver; mocking a method the outer type declares itself
+// replaces that method. In both cases the embedded type's own method - on a plain instance and through every
+// other type that embeds it - is a method of another type and must be unaffected. Reset restores everything.
+func runEmbedded(cs EmbedCase) string {
+	b := mocker.Create()
+	defer func() { vk.Try(func() { b.Reset() }) }()
+	oa, ob, lim, plain := &mx.OuterA{Pad: 41, Base: mx.Base{B: 1}}, &mx.OuterB{Base: mx.Base{B: 2}}, &mx.Limited{Base: mx.Base{B: 3}, L: 5}, &mx.Base{B: 4}
+	type obs struct{ oaName, oaVal, obName, limName, limBaseName, plainName, plainVal int }
+	get := func() (o obs, fail string) {
+		if msg, p := vk.Try(func() {
+			o = obs{mx.ViaNamer(oa, 7), mx.ViaValer(*oa, 7), mx.ViaNamer(ob, 7), mx.CallLimitedName(lim, 7), mx.CallBaseName(&lim.Base, 7), mx.CallBaseName(plain, 7), mx.CallBaseVal(*plain, 7)}
+		}); p {
+			return o, "panic: calling the methods panicked: " + vk.Short(msg, 100)
+		}
+		return o, ""
+	}
+	orig, f := get()
+	if f != "" {
+		return f
+	}
+	want := orig
+	seenPad, seenL := -1, -1
+	msg, p := vk.Try(func() {
+		switch cs.Which {
+		case "promoted-apply":
+			b.Struct(&mx.OuterA{}).Method("Name").Apply(func(o *mx.OuterA, k int) int { seenPad = o.Pad; return 9001 })
+			want.oaName = 9001
+		case "promoted-return":
+			b.Struct(&mx.OuterA{}).Method("Name").Return(9002)
+			want.oaName = 9002
+		case "promoted-value-return":
+			b.Struct(mx.OuterA{}).Method("Val").Return(9003)
+			want.oaVal = 9003
+		case "shadowing-apply":
+			b.Struct(&mx.Limited{}).Method("Name").Apply(func(l *mx.Limited, k int) int { seenL = l.L; return 9004 })
+			want.limName = 9004
+		case "shadowing-return":
+			b.Struct(&mx.Limited{}).Method("Name").Return(9005)
+			want.limName = 9005
+		}
+	})
+	if p {
+		return "panic: installing the mock panicked: " + vk.Short(msg, 120)
+	}
+	cmp := func(stage string, w obs) string {
+		g, f := get()
+		if f != "" {
+			return f
+		}
+		switch {
+		case g.oaName != w.oaName:
+			return fmt.Sprintf("%s: (*OuterA).Name through an interface returned %d, expected %d", stage, g.oaName, w.oaName)
+		case g.oaVal != w.oaVal && !(cs.Which == "promoted-value-return" && stage == "not-replaced"):
+			// (whether a call reaches the promoted value-receiver method OuterA.Val at all depends on how the
+			// compiler routes it - statically and through an interface it goes to Base.Val directly - so the
+			// "replaced" clause is not judged for it; that nothing else changes, and the restore, are)
+			return fmt.Sprintf("%s: OuterA.Val through an interface returned %d, expected %d", stage, g.oaVal, w.oaVal)
+		case g.limName != w.limName:
+			return fmt.Sprintf("%s: (*Limited).Name returned %d, expected %d", stage, g.limName, w.limName)
+		case g.obName != w.obName:
+			return fmt.Sprintf("other-affected: %s: (*OuterB).Name returned %d, it was never mocked (%d)", stage, g.obName, w.obName)
+		case g.limBaseName != w.limBaseName:
+			return fmt.Sprintf("other-affected: %s: (*Base).Name on the Base inside a Limited returned %d, it was never mocked (%d)", stage, g.limBaseName, w.limBaseName)
+		case g.plainName != w.plainName:
+			return fmt.Sprintf("other-affected: %s: (*Base).Name on a plain Base returned %d, it was never mocked (%d)", stage, g.plainName, w.plainName)
+		case g.plainVal != w.plainVal:
+			return fmt.Sprintf("other-affected: %s: Base.Val on a plain Base returned %d, it was never mocked (%d)", stage, g.plainVal, w.plainVal)
+		}
+		return ""
+	}
+	if f := cmp("not-replaced", want); f != "" {
+		return f
+	}
+	if cs.Which == "promoted-apply" && seenPad != 41 {
+		return fmt.Sprintf("receiver: the callback saw an *OuterA with Pad=%d, the instance has Pad=41", seenPad)
+	}
+	if cs.Which == "shadowing-apply" && seenL != 5 {
+		return fmt.Sprintf("receiver: the callback saw a *Limited with L=%d, the instance has L=5", seenL)
+	}
+	if msg, p := vk.Try(func() { b.Reset() }); p {
+		return "panic: Reset panicked: " + vk.Short(msg, 120)
+	}
+	return cmp("not-restored", orig)
+}
+
 func extraCases(c *vk.Ctx, base int64) {
 	idx := base
 	n := 0
+	for _, which := range []string{"promoted-apply", "promoted-return", "promoted-value-return", "shadowing-apply", "shadowing-return"} {
+		mine := c.Mine(idx)
+		idx++
+		if !mine || c.Full() {
+			continue
+		}
+		cs := EmbedCase{true, which}
+		f := runEmbedded(cs)
+		n++
+		c.Res.Evaluations++
+		c.Res.Traces++
+		c.Res.States++
+		c.Res.Transitions += 16
+		c.Distinct(fmt.Sprint(cs))
+		if f != "" {
+			c.Violate(fmt.Sprintf("embedded which=%s class=%s", which, f[:indexByte(f, ':')]), f, cs)
+		}
+	}
 	for _, m := range []string{"Peek", "Count"} {
 		for _, inst := range []string{"int", "string"} {
 			for _, how := range []string{"apply", "return"} {
